@@ -228,6 +228,9 @@ def run_real(gens_spec, annotate=False):
     except AclNotExclusiveError as e:
         return ("not-exclusive", str(e))
     except Exception as e:  # noqa
+        from mc import core
+        if core.raised_in_harness(e):
+            raise           # the stub call does not fit this tree's private parameter lists: not decided, not a finding
         return ("other", "%s: %s" % (type(e).__name__, e))
     if r.err:
         return ("other", "err=%r" % (r.err,))
